@@ -38,9 +38,9 @@ def run(ctx):
     r = ctx.rng.fork("c04")
     q = ctx.quick
     inputs = []   # (origin, text)
-    corp = textmut.corpus() + textmut.generated(ctx.seed * 911 + 4, 150 if q else 3000)
+    corp = textmut.corpus() + textmut.generated(ctx.seed * 911 + 4, 150 if q else 1500)
     for name, text in corp:
-        lim = (40 if q else 2200) if len(text) <= 2000 else (12 if q else 300)
+        lim = (40 if q else 1200) if len(text) <= 2000 else (12 if q else 300)
         for p in textmut.prefixes(text, r.fork("p", name), lim):
             inputs.append(("prefix:" + name, p))
         for i in range(8 if q else 160):
@@ -54,6 +54,21 @@ def run(ctx):
     for i, t in enumerate(textmut.FIXED):
         inputs.append(("fixed:%d" % i, t))
         inputs.append(("fixed-tail:%d" % i, "let ok = 1\nprintln(ok)\n" + t))
+    # C03's construct nests (context chain x payload): whole, and cut off / edited like the corpus
+    from checks import c03
+    nests = []
+    for chain in [(c,) for c in c03.CONTEXTS] + ([(a, b) for a in c03.TOP_KINDS for b in ("lambda", "task", "dflt", "gfn")] if not q else []):
+        for pl in c03.payloads(len(chain)):
+            t = c03.build(chain, pl)
+            if t is not None:
+                nests.append((">".join(chain) + ":" + pl[0], t[len(c03.DECLS):] if not t.count("Pt(") else t))
+    for name, t in nests:
+        inputs.append(("nest:" + name, t))
+    for name, t in r.sample(nests, min(len(nests), 60 if q else 1200)):
+        for p in textmut.prefixes(t, r.fork("np", name), 10 if q else 60):
+            inputs.append(("nest-prefix:" + name, p))
+        for i in range(2 if q else 20):
+            inputs.append(("nest-listmut:" + name, textmut.mutate_lists(t, r.fork("nl", name, i))))
     # dedupe
     seen, uniq = set(), []
     for o, t in inputs:
@@ -62,7 +77,10 @@ def run(ctx):
         seen.add(t)
         uniq.append((o, t))
     jobs = [{"id": "i%07d" % i, "mode": "checkcompile", "files": {"main.abra": t}, "std": True} for i, (o, t) in enumerate(uniq)]
-    results = ctx.run(jobs, job_timeout_s=60)
+    # run in slices: the driver's watchdog (one hour per executor process) is for hangs, not for size
+    results = {}
+    for i in range(0, len(jobs), 150000):
+        results.update(ctx.run(jobs[i:i + 150000], job_timeout_s=60))
     kinds = {}
     accepted = rejected = 0
     found = {}
